@@ -216,6 +216,21 @@ func Specs() []TypeSpec {
 			},
 			Subjects: []string{"alice"},
 		},
+		{
+			// the catalogue entry tolerates failures, a rule may take that back (and nothing else)
+			Name: "generic_ctx_tolerant", Kind: KindContextualizer, Type: "generic",
+			Cat: map[string]any{
+				"endpoint":                   map[string]any{"url": "{S}/ctx", "method": "POST"},
+				"payload":                    `{"sub":"{{ .Subject.ID }}","v":"cat"}`,
+				"continue_pipeline_on_error": true,
+			},
+			Overrides: []map[string]any{
+				{"continue_pipeline_on_error": false},
+				{"continue_pipeline_on_error": true},
+				{"continue_pipeline_on_error": false, "cache_ttl": "140s"},
+			},
+			Subjects: []string{"alice"},
+		},
 		// ------------------------------------------------------------ finalizers
 		{Name: "noop", Kind: KindFinalizer, Type: "noop", Subjects: []string{"alice"}},
 		{
